@@ -5,7 +5,7 @@
 From Coq Require Import List String QArith.
 From Coq Require Import Floats.PrimFloat.
 From PAFC01 Require Import ModelTree.
-From PAFC12 Require Import Gen Model Proofs Proofs2 Proofs3 Proofs4 Proofs5 Proofs6 Proofs7 Proofs8 Proofs9.
+From PAFC12 Require Import Gen Model Proofs Proofs2 Proofs3 Proofs4 Proofs5 Proofs6 Proofs7 Proofs8 Proofs9 Proofs10.
 Import ListNotations.
 
 (* STRUCTURE, every mode.  The new model has exactly the places (paths) of the old one, and the place that held
@@ -144,11 +144,35 @@ Theorem C12_config_own_refuted :
   PAFC01.Proofs.node_at Q ["inner"%string] ex_shared
     = Some (NModel "K2" ["a"; "s"]%string [("a"%string, NPrior 0%nat); ("s"%string, NPrior 1%nat)]) /\
   class_of Q 0 ex_shared = Some "K2"%string /\ last_path Q 0 ex_shared = Some ["s"%string] /\ cfg_name ["s"%string] = Ok "s"%string /\
+  (own_place_class = false ->
   exists n' s0 s1,
     qpass (-1000) 1000 ex_shared_cfg ex_shared_specs (MMeans None None false [1 # 2; 1]) ex_shared
       = Ok (n', [(0%nat, s0); (1%nat, s1)]) /\
-    s_sigma Q s0 = 3 /\ (s_lo Q s0, s_hi Q s0) = (-1, 1).
+    s_sigma Q s0 = 3 /\ (s_lo Q s0, s_hi Q s0) = (-1, 1)).
 Proof. exact config_own_refuted. Qed.
+
+(* the same model under the repair variant (vacuous while own_place_class = false): configured under (KN, "s") *)
+Theorem C12_config_one_place_repaired :
+  own_place_class = true ->
+  exists n' s0 s1,
+    qpass (-1000) 1000 ex_shared_cfg ex_shared_specs (MMeans None None false [1 # 2; 1]) ex_shared
+      = Ok (n', [(0%nat, s0); (1%nat, s1)]) /\
+    s_sigma Q s0 == (1 # 4) * (1 # 2) /\ (s_lo Q s0, s_hi Q s0) = (-5, 5).
+Proof. exact config_one_place_repaired. Qed.
+
+(* REPAIR VARIANT, prepared and switched off (Model.own_place_class = false; proposed_fixes/C12-config-one-place): the
+   class of the lookup becomes `holder_class (last place)`.  It is defined for every prior of a model / collection in
+   either setting, and the holder of a place below a Model (direct attribute or tuple member) is that Model -- for shared
+   priors too, so that class and name then describe one and the same place. *)
+Theorem C12_lookup_class_defined : forall (V : Type) (n : node V) (q : nat),
+  wf V n -> is_pm V n = true -> In q (prior_ids V n) -> lookup_class V q n <> None.
+Proof. exact lookup_class_some. Qed.
+
+Theorem C12_holder_class_own : forall (V : Type) (p : path) (n : node V) cls ctor attrs k0 c0 rest,
+  PAFC01.Proofs.node_at V p n = Some (NModel cls ctor attrs) -> assoc k0 attrs = Some c0 ->
+  (rest = [] \/ (exists ms m, c0 = NTuple ms /\ rest = [m])) ->
+  holder_class V (p ++ k0 :: rest) n = Some cls.
+Proof. exact holder_class_own. Qed.
 
 (* Full statement "passing succeeds for every finite inferred vector" (any sign), exact arithmetic *)
 Theorem C12_total_absolute : forall (ninf pinf : Q) cfg specs (a : Q) (nl : bool) (means : list Q) (n : node Q),
@@ -295,6 +319,7 @@ Print Assumptions C12_limits_structure.
 Print Assumptions C12_fixed_instance.
 Print Assumptions C12_config_own.
 Print Assumptions C12_config_own_refuted.
+Print Assumptions C12_holder_class_own.
 Print Assumptions C12_own_limits.
 Print Assumptions C12_own_replacement.
 Print Assumptions C12_total_limits.
